@@ -145,7 +145,7 @@ def plan_seq(pid, tier, seed, ncpu):
         if pid in ("C07", "C01"):
             # invalidate_all over more admitted entries than one maintenance run purges
             js += seq_jobs(bindirs["dbg"], workdir, known, pid, "bulk", scale(tier, 180, 4500), 1300, seed, 3, prefix="bulk")
-        if pid in ("C05", "C06"):
+        if pid in ("C05", "C06", "C16"):
             # more expired entries pending than one maintenance batch (100 / 500) purges
             js += seq_jobs(bindirs["dbg"], workdir, known, pid, "bulk", scale(tier, 240, 6000), 1300, seed, 4, prefix="bulk")
         # concurrent clauses
